@@ -23,6 +23,7 @@ RULE = ("case = (number of peers, request placement with hop-by-hop ids, submiss
 ASSUMPTIONS = ["hop-by-hop ids are unique per connection, not across connections",
                "a connection is 'ready' for an answer iff its socket is open on both sides and no DPR/DPA was exchanged"]
 TIMEOUT = {"quick": 900, "thorough": 3600}
+SCTP_CLONES = {"quick": ['rand3', 'enum0'], "thorough": ['rand10', 'rand11', 'enum0', 'concurrent3']}
 FAULTS = ["none", "close", "reset", "dpr", "reconnect", "second_conn", "second_conn_before"]
 
 
